@@ -59,8 +59,12 @@ ASSUMPTIONS = [
     '(bin2tap never produces an empty one)',
     'PZX (skoolkit writer) vs TAP: same pulses except the 945 T tail pulse pzx.txt prescribes after each data block',
     "tapinfo: the 'Type:' classification line of data blocks and the descriptive text of 0x33 entries are not compared",
-    'data blocks whose bit encodings contain zero-length pulses (sample-like data) have no well defined first edge: for them only '
-    'the end of the range is checked',
+    'data blocks whose bit encodings contain zero-length pulses (sample-like data) have no well defined first edge: their range '
+    'must only take in every level change before the end of the block; where zero-length pulses of a following block prolong or '
+    "cancel the trailing edge of a block's last pulse the range end is the edge that really terminates it (or one edge earlier)",
+    "tapinfo -a / --tape-analysis: 'Polarity adjustment' lines are bookkeeping and are not compared (the EAR column of the tone / "
+    'pulse / data / tail / pause lines is)',
+    'a crash (uncaught exception) of the parsers / get_edges on a generated tape is reported as a violation (clause crash)',
 ]
 
 
@@ -357,6 +361,15 @@ def compare_signal(fmt, ref, res):
 
 
 # =========================================================================== sub-space: seq / params
+def _tags(space, clause, fmt='', kinds='', features='', **extra):
+    """What known_findings.json matchers see.  `features` names the input classes the reference
+    found on the tape (see tapefmt.Signal.features); `group` = features, else space/clause."""
+    t = {'space': space, 'fmt': fmt, 'clause': clause, 'kinds': kinds, 'features': features,
+         'group': features or '{}/{}'.format(space, clause)}
+    t.update(extra)
+    return t
+
+
 def _kinds(blocks):
     return '+'.join(b['k'] for b in blocks)
 
@@ -402,7 +415,7 @@ def run_signal_unit(stats, uidx, name, fmt, blocks, sel_cfgs, fes=FIRST_EDGES):
                         stats.violation('{}/{}/{}/start={},stop={},skip={},is48={},pol={},fe={}:{}'.format(
                             name, fmt, _kinds(blocks), start, stop, '.'.join(map(str, skip)), int(is48), pol, fe, clause),
                             signal_case(fmt, blocks, cfg), '{}: {}'.format(clause, detail),
-                            tags={'space': name, 'fmt': fmt, 'clause': clause, 'kinds': _kinds(blocks), 'features': ref.feat},
+                            tags=_tags(name, clause, fmt, _kinds(blocks), ref.feat),
                             order=uidx * 16384 + ci)
     if uidx % 211 == 0:
         stats.sample({'space': name, 'fmt': fmt, 'blocks': blocks, 'settings': ci})
@@ -585,14 +598,13 @@ def run_flag_unit(stats, uidx, flag, payload):
             stats.violation('flags/{}/flag={:02X},payload={}:{}'.format(fmt, flag, len(payload), clause),
                             {'space': 'flags', 'fmt': fmt, 'flag': flag, 'payload': payload},
                             'pilot tone of {} pulses, expected {} for flag byte 0x{:02X}; {}: {}'.format(got, want, flag, clause, detail),
-                            tags={'space': 'flags', 'fmt': fmt, 'clause': 'pilot_count' if got != want else clause, 'flag': flag,
-                                  'features': ''}, order=uidx * 16384 + ci)
+                            tags=_tags('flags', 'pilot_count' if got != want else clause, fmt, flag=flag), order=uidx * 16384 + ci)
     stats.evaluations += 1
     stats.counters['flag_equiv'] += 1
     for d in flag_equiv(results):
         stats.violation('flags/equiv/flag={:02X},payload={}'.format(flag, len(payload)),
                         {'space': 'flags', 'fmt': 'equiv', 'flag': flag, 'payload': payload}, d,
-                        tags={'space': 'flags', 'fmt': 'all', 'clause': 'equiv', 'flag': flag, 'features': ''}, order=uidx * 16384 + 3)
+                        tags=_tags('flags', 'equiv', 'all', flag=flag), order=uidx * 16384 + 3)
 
 
 def flag_equiv(results):
@@ -922,7 +934,7 @@ def run_analysis_unit(stats, uidx, fmt, blocks):
                 tool, fmt, _kinds(blocks), start, stop, '.'.join(map(str, skip)), machine, pol, fe),
                 {'space': 'analysis', 'tool': tool, 'fmt': fmt, 'blocks': blocks, 'start': start, 'stop': stop, 'skip': list(skip),
                  'machine': machine, 'polarity': pol, 'first_edge': fe}, v[1],
-                tags={'space': 'analysis', 'fmt': fmt, 'clause': 'analysis', 'kinds': _kinds(blocks), 'features': feat},
+                tags=_tags('analysis', 'analysis', fmt, _kinds(blocks), feat),
                 order=uidx * 16384 + ci)
 
 
@@ -1006,7 +1018,7 @@ def run_unit(stats, uidx, unit):
         for clause, detail in check_roundtrip(datas):
             stats.violation('roundtrip/{}:{}'.format(','.join(str(len(d)) for d in datas), clause),
                             {'space': 'roundtrip', 'datas': [d if len(d) < 20 else {'flag': d[0], 'len': len(d)} for d in datas]},
-                            '{}: {}'.format(clause, detail), tags={'space': 'roundtrip', 'clause': clause, 'features': ''}, order=uidx * 16384)
+                            '{}: {}'.format(clause, detail), tags=_tags('roundtrip', clause), order=uidx * 16384)
     elif space == 'equiv':
         datas = unit[1]
         for ci, (pol, fe) in enumerate(itertools.product((0, 1), FIRST_EDGES)):
@@ -1018,14 +1030,14 @@ def run_unit(stats, uidx, unit):
             for clause, detail in check_equiv(datas, pol, fe):
                 stats.violation('equiv/{}/pol={},fe={}'.format('+'.join(''.join('%02X' % b for b in d) for d in datas), pol, fe),
                                 {'space': 'equiv', 'datas': datas, 'polarity': pol, 'first_edge': fe}, detail,
-                                tags={'space': 'equiv', 'clause': clause, 'features': ''}, order=uidx * 16384 + ci)
+                                tags=_tags('equiv', clause), order=uidx * 16384 + ci)
     elif space == 'bin2tap':
         stats.evaluations += 1
         stats.transitions += 2
         stats.counters['bin2tap_runs'] += 1
         for clause, detail in check_bin2tap(unit[1]):
             stats.violation('bin2tap/{}'.format(unit[1]), {'space': 'bin2tap', 'length': unit[1]}, detail,
-                            tags={'space': 'bin2tap', 'clause': clause, 'features': ''}, order=uidx * 16384)
+                            tags=_tags('bin2tap', clause), order=uidx * 16384)
     elif space == 'flags':
         run_flag_unit(stats, uidx, unit[1], unit[2])
     elif space == 'tapinfo':
@@ -1040,7 +1052,7 @@ def run_unit(stats, uidx, unit):
             for clause, detail in check_tapinfo(fmt, blocks, start, stop, skip, path):
                 stats.violation('tapinfo/{}/{}/start={},stop={},skip={}'.format(fmt, _kinds(blocks), start, stop, '.'.join(map(str, skip))),
                                 {'space': 'tapinfo', 'fmt': fmt, 'blocks': blocks, 'start': start, 'stop': stop, 'skip': list(skip)},
-                                detail, tags={'space': 'tapinfo', 'fmt': fmt, 'clause': clause, 'kinds': _kinds(blocks), 'features': ''},
+                                detail, tags=_tags('tapinfo', clause, fmt, _kinds(blocks)),
                                 order=uidx * 16384 + ci)
     elif space == 'analysis':
         run_analysis_unit(stats, uidx, unit[1], unit[2])
@@ -1080,6 +1092,10 @@ def run(tier, seed):
                   3 if T else 2, 3 if T else 2, MIXES[seed % len(MIXES)], seed % len(MIXES)),
         assumptions=ASSUMPTIONS,
         required_guards=REQUIRED_GUARDS,
+        extra={'catalogue_items': {'tzx': len(tzx_catalogue(0xA5)), 'pzx': len(pzx_catalogue(0xA5)),
+                                   'tzx_reduced': len(tzx_catalogue(0xA5, True)), 'pzx_reduced': len(pzx_catalogue(0xA5, True))},
+               'sub_spaces': ['roundtrip', 'equiv', 'bin2tap', 'flags', 'params', 'seq', 'tapinfo', 'analysis'],
+               'units_per_space': {k[6:]: v for k, v in sorted(stats.counters.items()) if k.startswith('units_')}},
     )
     return stats, meta
 
